@@ -223,6 +223,9 @@ def run(rep, tier):
     rep.floor("data-dependent strides (TLV walkers)", ns, 4)
     nl = sum(locator_rule(rep, u) for u in us.values())
     rep.floor("validator/locator pairs", nl, 2)
+    # request line: the components returned are sub-spans of the target (rule lives in C20)
+    from props import c20
+    rep.floor("target component searches", c20.span_rule(rep, us["src/proto/http.c"]), 3)
     from rules import r_endian
     nwf = 0
     for lab, u in us.items():
